@@ -44,6 +44,7 @@ type DeclCfg struct {
 	PInline      int // % of nested struct fields that carry no group tag (their options belong to the enclosing group)
 	PCmdTwin     int // a sibling command is named like the previous one up to case / one trailing character
 	PNamedRest   int // a []string rest positional is declared with the named type StrList
+	PReqViaAPI   int // the required counts of a positional are assigned through Command.Args() instead of a tag
 	PPosLongTag  int // a positional field also carries a long: tag
 	PPosSplit    int // the positionals are declared in two positional-args structs
 	PNoUnquote   int
@@ -218,6 +219,7 @@ func (n *namer) genCmdBody(c *Cmd) {
 			} else if !pd.Required && r.Chance(cfg.PPosReq/2, 100) {
 				a.Req = "yes"
 			}
+			a.ReqViaAPI = a.Req != "" && cfg.PReqViaAPI > 0 && r.Chance(cfg.PReqViaAPI, 100)
 			if r.Chance(cfg.PDesc, 100) {
 				a.Desc = fmt.Sprintf("pd%03d positional text", id) + r.Pick([]string{"", "", "", " 100%", " %d"})
 			}
